@@ -701,6 +701,12 @@ class Sym:
             kk = int(k)
         if kk is None and isinstance(k, (float, np.floating)) and float(k) == 0.5:
             return self.sqrt()
+        if kk is None and isinstance(k, (float, np.floating)) and abs(float(k) - 1.0 / 3.0) < 1e-15 and self.plain and self.d is None:
+            # x ** (1/3): the real cube root for x >= 0, nan for x < 0 (numpy)
+            c = _ctx()
+            if not c.domain(self.p >= 0, "fractional power of a negative number"):
+                return math.nan
+            return Sym(c.cbrt_term(self.p))
         if kk is None or kk < 0 and not self.plain:
             return _ctx().opaque("pow", self, lift(k))
         if not self.plain:
